@@ -292,6 +292,7 @@ pub struct Args {
     pub replay_child: bool,
     pub runs_override: Option<u64>,
     pub no_evidence: bool,
+    pub no_minimise: bool,
     pub extra: Vec<String>,
 }
 
@@ -323,6 +324,7 @@ pub fn parse_args() -> Args {
         replay_child: false,
         runs_override: std::env::var("VERIF_RUNS").ok().and_then(|s| s.parse().ok()),
         no_evidence: false,
+        no_minimise: std::env::var("VERIF_NO_MINIMISE").is_ok(),
         extra: Vec::new(),
     };
     let mut it = std::env::args().skip(1);
@@ -347,6 +349,7 @@ pub fn parse_args() -> Args {
             "--replay-child" => a.replay_child = true,
             "--runs" => a.runs_override = Some(num(it.next())),
             "--no-evidence" => a.no_evidence = true,
+            "--no-minimise" => a.no_minimise = true,
             _ => a.extra.push(x),
         }
     }
@@ -821,12 +824,12 @@ fn minimise<E: Engine>(engine: &E, a: &Args, dir: &Path, v: &Violation) -> (Json
     let start = Instant::now();
     let mut steps = 0;
     'outer: loop {
-        if budget <= 0 || start.elapsed() > Duration::from_secs(120) {
+        if budget <= 0 || start.elapsed() > Duration::from_secs(90) {
             break;
         }
         for cand in engine.shrink(&plan) {
             budget -= 1;
-            if budget < 0 {
+            if budget < 0 || start.elapsed() > Duration::from_secs(90) {
                 break 'outer;
             }
             let same = if isolated {
@@ -1008,7 +1011,16 @@ pub fn main_with<E: Engine + 'static>(engine: &'static E) -> ! {
             continue;
         }
         unlisted += 1;
-        let (plan, steps) = minimise(engine, &a, &dir, v);
+        println!(
+            "found: class={} key={} run={} occurrences={} message={}",
+            class, key, v.run, n, v.message
+        );
+        let _ = std::io::stdout().flush();
+        let (plan, steps) = if a.no_minimise {
+            (v.plan.clone(), 0)
+        } else {
+            minimise(engine, &a, &dir, v)
+        };
         // confirm in a fresh process
         let confirm = replay_in_child(&a, &dir, &plan, "confirm");
         let confirmed = confirm.iter().any(|(c, k, _)| c == class && k == key);
